@@ -16,8 +16,16 @@ import (
 	"verif/instr"
 )
 
+// repoDir is the repository whose working tree is checked: /repo, unless VERIF_REPO names a snapshot
+// (used only for background exploration runs started with `vp run --with-repo`).
+var repoDir = func() string {
+	if d := os.Getenv("VERIF_REPO"); d != "" {
+		return d
+	}
+	return "/repo"
+}()
+
 const (
-	repoDir = "/repo"
 	goCmd   = "go1.26.8"
 	sutMod  = "go.flow.arcalot.io/pluginsdk"
 	harnMod = "verifharness"
